@@ -206,7 +206,7 @@ def build_rows(tier, seed):
         rows.append(("CD", f"U{n}", n, {"cd": True, "cls": "const_default_built"}))
     # (b) random element types x random digit strings
     tg = TypeGen(rng)
-    count = 300 if tier == "quick" else 6000
+    count = 1000 if tier == "quick" else 8000
     for _ in range(count):
         ty, zst = tg.gen()
         depth = rng.choice([rng.randint(0, 11), rng.randint(0, 62)])
